@@ -259,8 +259,9 @@ fn main() {
                 // the generator's printer is the Lean `escape`
                 ctx.case(format!("escape {q} {} #printer", hex_str(s)), hex_str(&escape(*q, s)));
                 // payload seen by the lexer = intended text
-                let n_chars = lit.chars().count();
-                let want_lex = format!("StringLit:{}/0/{} Eof/{}/{} |", hex_str(s), n_chars, n_chars, n_chars + 1);
+                // spans are byte offsets into the source (after the fix of D12)
+                let n = lit.len();
+                let want_lex = format!("StringLit:{}/0/{} Eof/{}/{} |", hex_str(s), n, n, n + 1);
                 if o.lex != want_lex {
                     ctx.spec_fail(format!("string literal {lit:?} ({style}): lexer gives `{}`, intended text {s:?} i.e. `{want_lex}`", o.lex));
                 }
